@@ -106,6 +106,62 @@ def rewrite_source(fn_text, rewrites):
                 expr = fn_text[toks[i + 1].pos:toks[j - 1].end]
                 edits.append((toks[i - 1].pos, toks[j].end, '{ let t = %s; %s = %s || t; }' % (expr, x, x)))
                 applied.append('%s |= e; -> { let t = e; %s = %s || t; }' % (x, x, x))
+    # R3: inline a non-escaping local closure `let [mut] f = |a, b| BODY;` at its call sites `f(x, y)` (beta reduction).
+    #     Declared per function as `rewrites=inline:f`. Preconditions checked here: the parameters are plain identifiers, the
+    #     body is one expression, every use of `f` is a direct call, every argument is a single token (identifier / literal)
+    #     so that no evaluation is duplicated or reordered. Verus rejects closures that capture `&mut`; rustc accepts both forms.
+    for rw in sorted(rewrites):
+        if not rw.startswith('inline:'): continue
+        fname = rw.split(':', 1)[1]
+        d = None
+        for i in range(len(toks) - 4):
+            if toks[i].text == 'let' and (toks[i + 1].text == fname or (toks[i + 1].text == 'mut' and toks[i + 2].text == fname)):
+                j = i + (2 if toks[i + 1].text == fname else 3)
+                if toks[j].text == '=' and toks[j + 1].text == '|': d = (i, j + 1); break
+        if d is None: raise ExtractError('rewrite inline:%s: closure definition not found' % fname)
+        i_let, i_bar = d
+        params = []; j = i_bar + 1
+        while toks[j].text != '|':
+            if toks[j].kind != 'id' or toks[j + 1].text not in (',', '|'): raise ExtractError('rewrite inline:%s: parameter is not a plain identifier' % fname)
+            params.append(toks[j].text); j += 1
+            if toks[j].text == ',': j += 1
+        b0 = j + 1
+        if toks[b0].text == '{':
+            b1 = R.match_close(toks, b0)
+            if toks[b1 + 1].text != ';': raise ExtractError('rewrite inline:%s: unexpected closure shape' % fname)
+            body = toks[b0 + 1:b1]; i_end = b1 + 1
+            if any(t.text == ';' for t in body): raise ExtractError('rewrite inline:%s: closure body is not a single expression' % fname)
+        else:
+            k = b0
+            while toks[k].text != ';':
+                if toks[k].text in ('(', '[', '{'): k = R.match_close(toks, k)
+                k += 1
+            body = toks[b0:k]; i_end = k
+        edits.append((toks[i_let].pos, toks[i_end].end, ''))
+        k = i_end + 1; ncalls = 0
+        while k < len(toks):
+            if toks[k].text == fname and toks[k].kind == 'id':
+                if toks[k + 1].text != '(': raise ExtractError('rewrite inline:%s: the closure is used other than by a direct call' % fname)
+                c = R.match_close(toks, k + 1)
+                args = []; cur = []
+                depth = 0
+                for t in toks[k + 2:c]:
+                    if t.text in ('(', '[', '{'): depth += 1
+                    elif t.text in (')', ']', '}'): depth -= 1
+                    if t.text == ',' and depth == 0: args.append(cur); cur = []
+                    else: cur.append(t)
+                if cur: args.append(cur)
+                if len(args) != len(params) or any(len(a) != 1 for a in args):
+                    raise ExtractError('rewrite inline:%s: call with non-atomic arguments' % fname)
+                sub = dict(zip(params, [a[0].text for a in args]))
+                parts = []
+                for bi, t in enumerate(body):
+                    prev = body[bi - 1].text if bi > 0 else ''
+                    parts.append(sub[t.text] if (t.kind == 'id' and t.text in sub and prev not in ('.', '::')) else t.text)
+                edits.append((toks[k].pos, toks[c].end, ' '.join(parts)))
+                ncalls += 1; k = c + 1
+            else: k += 1
+        applied.append('closure %s(%s) inlined at %d call sites' % (fname, ', '.join(params), ncalls))
     out = fn_text
     for s, e, r in sorted(edits, reverse=True):
         out = out[:s] + r + out[e:]
